@@ -49,6 +49,10 @@ def configs(tier):
             out.append(dict(kind="normalize", dim=dim, geom=g, payload="scalar"))
         out.append(dict(kind="normalize", dim=dim, geom="weighted_array", payload="series"))
         out.append(dict(kind="normalize", dim=dim, geom="plain", payload="vector"))
+        out.append(dict(kind="normalize", dim=dim, geom="plain", payload="series_vector"))
+        if dim == 2 or not quick:
+            out.append(dict(kind="normalize", dim=dim, geom="weighted_array", payload="series_vector"))
+            out.append(dict(kind="sum", dim=dim, geom="weighted_array", payload="series_vector", image=True))
     # histories
     maxlen = 3 if quick else 5
     for dim, g in ((2, "plain"), (2, "weighted_scalar"), (2, "weighted_array"), (1, "extruded_scalar"), (3, "porous_scalar"), (2, "extporous_Image_float")):
@@ -61,6 +65,14 @@ def configs(tier):
                 if not quick and n >= 4 and (g not in ("plain", "weighted_array") or seq[-1] != "native" and n == 5):
                     continue
                 out.append(dict(kind="history", dim=dim, geom=g, seq=list(seq)))
+    # histories over coarsenings that are NOT nested in each other (6 -> 3 -> 2), array volumes
+    for native, shapes in (((1, 6), [(1, 6), (1, 3), (1, 2)]),) + (() if quick else (((2, 6), [(2, 6), (1, 3), (2, 3), (2, 2), (1, 2), (1, 6)]), ((6, 2), [(6, 2), (3, 2), (2, 2), (3, 1), (2, 1)]))):
+        for g in ("weighted_array", "extporous_Image_ndarray", "porous_array"):
+            for n_ in (2, 3):
+                for seq in itertools.product(shapes, repeat=n_):
+                    if len(set(seq)) == 1 or (n_ == 3 and (not quick) and len(shapes) > 3 and seq[0] == seq[1]):
+                        continue
+                    out.append(dict(kind="history_shapes", dim=2, geom=g, native=list(native), seq=[list(x) for x in seq]))
     return out
 
 
@@ -86,7 +98,7 @@ def _dt():
 def make_geometry(darsia, cfg, tag=""):
     """returns (geometry, per-voxel volume array at native resolution, dims)"""
     dim = cfg["dim"]
-    n = NATIVE[dim]
+    n = tuple(cfg.get("native") or NATIVE[dim])
     dims = [S.real(f"d{m}", lo="1/100", hi=100) for m in range(dim)]
     h = [dims[m] / n[m] for m in range(dim)]
     vol = 1
@@ -143,7 +155,7 @@ def wrap_data(darsia, cfg, a, dims, as_image):
     if not as_image:
         return a
     p = cfg["payload"]
-    return darsia.Image(a, dimensions=list(dims), space_dim=cfg["dim"], scalar=(p in ("scalar", "series")), series=(p == "series"), time=[0.0, 1.0] if p == "series" else None)
+    return darsia.Image(a, dimensions=list(dims), space_dim=cfg["dim"], scalar=(p in ("scalar", "series")), series=p.startswith("series"), time=[0.0, 1.0] if p.startswith("series") else None)
 
 
 def weighted_sum(data, volarr, dim):
@@ -179,7 +191,7 @@ def body(cfg):
     dim = cfg["dim"]
     kind = cfg["kind"]
     geo, volarr, dims = make_geometry(darsia, cfg)
-    n = NATIVE[dim]
+    n = tuple(cfg.get("native") or NATIVE[dim])
     tail = tail_shape(cfg.get("payload", "scalar"))
     arrayvol = isinstance(geo.voxel_volume, np.ndarray)
     if kind == "sum":
@@ -217,12 +229,25 @@ def body(cfg):
         a = S.array("a", n + tail, lo="1/10", hi=10)
         b = S.array("b", n + tail, lo="1/10", hi=10)
         p = cfg["payload"]
-        mk = lambda x: darsia.Image(x, dimensions=list(dims), space_dim=dim, scalar=(p in ("scalar", "series")), series=(p == "series"), time=[0.0, 1.0] if p == "series" else None)  # noqa: E731
+        mk = lambda x: darsia.Image(x, dimensions=list(dims), space_dim=dim, scalar=(p in ("scalar", "series")), series=p.startswith("series"), time=[0.0, 1.0] if p.startswith("series") else None)  # noqa: E731
         A, B = mk(a.copy()), mk(b.copy())
         N = geo.normalize(A, B)
         S.claim("normalised_image_has_the_reference_integral", S.eq(geo.integrate(N), geo.integrate(B)))
         S.claim("normalise_leaves_its_inputs", S.and_(S.eq(A.img, a), S.eq(B.img, b)))
         S.observe("normalised", N.img)
+        return
+    if kind == "history_shapes":
+        # earlier calls integrate ARBITRARY data at other (not nested) resolutions; the last call
+        # integrates a field that is piecewise constant on its own resolution
+        seq = [tuple(x) for x in cfg["seq"]]
+        S.set_rtol(1e-6)  # real cv2 rounds the shrink factor 1/3 to float32 (relative 3e-8): rounding is outside the claim
+        for k, shp in enumerate(seq[:-1]):
+            geo.integrate(S.array(f"r{k}", shp, lo=-10, hi=10))
+        q = S.array("q", seq[-1], lo=-10, hi=10)
+        val = geo.integrate(q.copy())
+        fresh, _, _ = make_geometry(darsia, cfg)
+        S.claim("last_call_equals_fresh_object", S.eq(val, fresh.integrate(q.copy())))
+        S.claim("last_call_is_the_weighted_sum", S.eq(val, weighted_sum(q, block_volumes(volarr, seq[-1], dim), dim)))
         return
     # ---- histories
     q = S.array("q", base, lo=-10, hi=10)
